@@ -21,6 +21,8 @@ def payload_family(name, rng, bufs=(16, 64, 4096)):
         sizes = sorted({max(1, b + d) for b in bufs for d in (-12, -1, 0, 1, 13)} | {2 * bufs[1]})
     elif name == "page":
         sizes = [4084, 4090, 4095, 4096, 4097, 8191, 8200, 100]
+    elif name == "varint":       # lengths at the varint encoding boundaries of the record header
+        sizes = [126, 127, 128, 129, 16382, 16383, 16384, 16385]
     elif name == "big":
         sizes = [70000, 1 << 20, (1 << 20) + 1, 3, 5000]
     else:
